@@ -48,3 +48,14 @@ Ltac tie_numeric :=
   repeat match goal with |- _ /\ _ => split end;
   try exact I;
   interval with (i_prec 80).
+
+(* integrals (Phi of the truncated Gaussian model): enclose every distinct RInt by CoqInterval's integral_intro,
+   abstract it, and let `interval` use the enclosure *)
+From Coquelicot Require Import Coquelicot.
+Ltac rints :=
+  repeat match goal with
+         | |- context [RInt ?f ?a ?b] =>
+           let H := fresh "HR" in
+           integral_intro (RInt f a b) with (i_prec 80, i_relwidth 45) as H;
+           let P := fresh "P" in set (P := RInt f a b) in *; clearbody P
+         end.
